@@ -69,6 +69,13 @@ CLAIMED = {
             "and reset at calls/returns (R3); control-flow propagation retargets call returns without known conditions, invalidates the precondition for every defining variant, keeps edge-condition "
             "polarity and never bypasses blocks with defs (R4). Each clause is necessary for behaviour preservation; semantic equivalence and the algebraic rewrites are not decided.",
             "3/C10", ""),
+    "C12": ("size type-checking by abstract interpretation of THIR bodies (rules/lib/sizealg.py): path enumeration through if / if-let / match arms / or-patterns / guards / small callees; size-relevant guards become linear equations; "
+            "symbolic byte sizes of expression shapes; obligations decided by Gaussian elimination modulo the path equations; result-size classes extracted from Expression::bytesize",
+            "Decides, for every well-sized input of each pass (assume/guarantee), that (R1) every in-place rewrite `*self = E` of an Expression in trivial_operation_substitution / expression.rs / stack-alignment substitution preserves the size and builds a well-sized E, "
+            "(R2) every Def::Assign constructed by the lifting and sub-register passes stores a value of the variable's size -- including all three placement branches of the PIECE construction and the SUBPIECE/cast lifting -- and "
+            "(R3) substitute_input_var is called with a replacement of the variable's size. A non-zero residual over free size symbols is reported as a violation (some well-sized input breaks it); values the interpreter cannot size are undecided. "
+            "Not decided: sizes related only through data invariants of maps (expression propagation's table), pointer-size of load/store addresses, and the size-consistency of the extractor's P-Code.",
+            "3/C12", ""),
     "C14": ("Expression-slot universe derived from the Def/Jmp type definitions; slot-coverage of the read-flag setters per transfer function (receiver must be the returned state; order before the register overwrite); loop-shape analysis of the entry-state constructor; field-wise join analysis of AccessPattern::merge and the map strategy read from the field type; guard vocabulary of the parameter extraction",
             "Decides the conditions without which a register parameter cannot be recorded: every parameter register (integer and float inputs) is tracked from the entry (R1); every Expression slot of Def/Jmp is read-flagged "
             "on the returned state before the defined register is overwritten (R2); tracked ids are merged with the union strategy and flags joined with || (R3); extraction keeps every accessed register parameter (R4). "
